@@ -163,6 +163,15 @@ Proof.
   - exfalso. pose proof (find_none _ _ F it0 H0) as K. cbn in K. rewrite E0, str_eqb_refl in K. discriminate.
 Qed.
 
+(* the domain of the completeness theorem and the finding classes are disjoint *)
+Lemma dom_excludes_known ws mapped s c d n : dom_C14 ws mapped s c d n = true -> known_C14 ws s c d n = None.
+Proof.
+  unfold dom_C14, known_C14. intros Hd.
+  apply andb_true_iff in Hd as [Hd _]. apply andb_true_iff in Hd as [Hd _]. apply andb_true_iff in Hd as [Hd _].
+  apply andb_true_iff in Hd as [Hd _]. apply andb_true_iff in Hd as [Hd D4]. apply andb_true_iff in Hd as [Hd D3].
+  apply andb_true_iff in Hd as [D1 _]. rewrite D3, D4, D1. reflexivity.
+Qed.
+
 (* ====================================================================================== *)
 (* (2) soundness and (3) completeness against the specification                            *)
 (* ====================================================================================== *)
